@@ -1,4 +1,5 @@
 import FtdcVerif.Lemmas.HdrRank
+import FtdcVerif.Lemmas.Window
 /-!
 # C13 — quantiles, merges, windows and snapshots agree with an exact oracle
 
@@ -319,6 +320,56 @@ theorem window_merge_is_union {minV : Int} {maxV s : Nat} (hv : Valid minV maxV 
       rw [show ((0 : Int) + 0) = 0 from rfl, ih (L ++ sl)]
       simp [List.append_assoc]
   exact key _ []
+
+/-! ### ... and the slots hold exactly the last `n` generations
+
+The chronological window `CWin` keeps the last `n` generations oldest first: `Rotate` drops the
+oldest and opens a new empty one, a record goes to the newest. -/
+
+open Ftdc.Window in
+def cwinApply (c : CWin) : WOp → CWin
+  | .record v => c.record v
+  | .rotate => c.rotate
+
+open Ftdc.Window in
+theorem awin_rel (n : Nat) (hn : 0 < n) (ops : List WOp) :
+    let a := ops.foldl AWin.apply (AWin.new n)
+    let c := ops.foldl cwinApply ⟨List.replicate n []⟩
+    a.n = n ∧ Rel n a.slots a.idx c.win := by
+  have : ∀ (ops : List WOp) (a : AWin) (c : CWin), a.n = n → Rel n a.slots a.idx c.win →
+      (ops.foldl AWin.apply a).n = n ∧
+      Rel n (ops.foldl AWin.apply a).slots (ops.foldl AWin.apply a).idx (ops.foldl cwinApply c).win := by
+    intro ops
+    induction ops with
+    | nil => intro a c h1 h2; exact ⟨h1, h2⟩
+    | cons op ops ih =>
+      intro a c h1 h2
+      simp only [List.foldl_cons]
+      cases op with
+      | record v =>
+        apply ih
+        · exact h1
+        · have := rel_record v h2 hn
+          simp only [AWin.apply, cwinApply, CWin.record, h1]
+          exact this
+      | rotate =>
+        apply ih
+        · exact h1
+        · have := rel_rotate h2 hn
+          simp only [AWin.apply, cwinApply, CWin.rotate, h1]
+          exact this
+  exact this ops (AWin.new n) ⟨List.replicate n []⟩ rfl (rel_init n)
+
+open Ftdc.Window in
+/-- **A windowed histogram's merge equals the union of its last `n` windows**, for every
+configuration, every `n ≥ 1` and every schedule of records and rotations -/
+theorem window_merge_is_last_n_windows {minV : Int} {maxV s : Nat} (hv : Valid minV maxV s) (n : Nat) (hn : 0 < n)
+    (ops : List WOp) :
+    (ops.foldl Win.apply (Win.new n (new minV maxV s))).merge =
+      (recordAll (new minV maxV s) (ops.foldl cwinApply ⟨List.replicate n []⟩).win.flatten, 0) := by
+  rw [window_merge_is_union hv]
+  have := (awin_rel n hn ops).2
+  rw [record_order_irrelevant _ _ (slots_perm this hn)]
 
 /-! non-vacuity -/
 example : import_ (export_ (recordAll (new 1 100 2) [5, 5, 99, 1000, -3])) =
